@@ -155,6 +155,10 @@ func (e *Engine) runOnce(c *Contract, fn *ssa.Function, res *FuncResult) {
 			t := tb.Const(name, e.sortOf(p.Type()))
 			v = e.asVal(t, p.Type())
 			e.assumeWF(fr, st, t, p.Type())
+			if _, isI := p.Type().Underlying().(*types.Interface); isI && p.Type().String() != "error" {
+				// interface-typed parameters (readers, writers, ...) are assumed non-nil
+				e.addGlobalFact(tb.Not(tb.Eq(tb.Acc(t, 0), tb.Int(0))))
+			}
 			res.Params = append(res.Params, t)
 		}
 		res.ParamNames = append(res.ParamNames, p.Name())
@@ -284,7 +288,6 @@ func (e *Engine) VerifyLemma(c *Contract) (res *FuncResult) {
 func (e *Engine) Query(r *FuncResult, o *Obligation) []*Term {
 	tb := e.tb
 	var as []*Term
-	as = append(as, e.litFacts()...)
 	if len(r.ErrGlobals) > 1 {
 		as = append(as, tb.Distinct(r.ErrGlobals...))
 	}
@@ -293,7 +296,17 @@ func (e *Engine) Query(r *FuncResult, o *Obligation) []*Term {
 	if !o.Cover {
 		as = append(as, tb.Not(e.skolemize(o.Goal)))
 	}
-	return as
+	as = append(e.litFactsFor(as), as...)
+	var out []*Term
+	seen := map[*Term]bool{}
+	for _, a := range as {
+		if a.IsTrue() || seen[a] {
+			continue
+		}
+		seen[a] = true
+		out = append(out, a)
+	}
+	return out
 }
 
 func (o *Obligation) String() string { return fmt.Sprintf("%s", o.Name) }
